@@ -22,7 +22,7 @@ TRUSTED_BASE = [
     "Lean 4.33.0 kernel; axioms ⊆ {propext, Classical.choice, Quot.sound}",
     "hand-written names-level model lean/P2P/Model/Atoms.lean of residue.py add/remove/rename and of hydrogens/structures.py Flip, Alcoholic, Water and hydrogens/__init__.py cleanup, tied to the real objects by replaying every logged method call",
     "geometry enters the model only as logged outcomes (return values, the oxygen's bond count); the theorems quantify over all outcomes",
-    "Carboxylic (doubled protons, O-swap through the temporary name FLIP), heavy-atom repair, add_hydrogens and patch application are NOT modelled: they are covered by the final-state oracle on the runs made, not by theorems (partial)",
+    "Carboxylic is modelled for ASH and GLH (lean/P2P/Model/Carboxylic.lean, trace-replayed); the neutral C-terminus variant (CTR), patch application and the composition of the pipeline stages are NOT modelled: they are covered by the final-state oracle on the runs made (partial)",
     "no nucleic-acid structure is available offline: the 5'-phosphate removal is not exercised",
 ]
 ASSUMPTIONS = ["residues with a reference definition; duplicate-free atom names on input"]
@@ -32,10 +32,11 @@ PSEUDO = ("N+1", "C-1")
 class OptMonitor:
     """logs every method call on the optimisation objects with the residue's names around it"""
 
-    METHODS = ("__init__", "fix_flip", "try_donor", "try_acceptor", "try_both", "finalize", "complete")
+    METHODS = ("__init__", "fix_flip", "try_donor", "try_acceptor", "try_both", "finalize", "complete", "fix")
 
     def __init__(self):
         self.records = []
+        self.carb = {}  # id(Carboxylic object) -> proton / oxygen names
         self.stack = []
         self.cleanup = []
         self.warnings = []
@@ -87,6 +88,19 @@ class OptMonitor:
                     rec["b"] = len(o.bonds) if o is not None else None
                 if mname == "try_both":
                     rec["accobj"] = a[2]
+                if cls == "Carboxylic":
+                    if mname == "fix":
+                        res = a[0].residue
+                        rec["res"] = res
+                        rec["before"] = names(res)
+                    if mname == "__init__":
+                        keys = list(a[1].map.keys())
+                        h2 = next((k for k in keys if k.endswith("2")), "")
+                        h1 = next((k for k in keys if not k.endswith("2")), "")
+                        mon.carb[id(self_)] = {"p1": h1, "p2": h2, "o1": a[1].map[h1].bond if h1 else "", "o2": a[1].map[h2].bond if h2 else ""}
+                        rec["c_before"] = None
+                    else:
+                        rec["c_before"] = ([(id(x), x.name) for x in self_.hlist], [x.name for x in self_.atomlist], bool(res.fixed))
                 if mon.stack:
                     mon.stack[-1]["children"].append(rec)
                 mon.stack.append(rec)
@@ -99,6 +113,8 @@ class OptMonitor:
                 finally:
                     mon.stack.pop()
                     rec["after"] = names(res)
+                    if cls == "Carboxylic" and hasattr(self_, "hlist"):
+                        rec["c_after"] = ([(id(x), x.name) for x in self_.hlist], [x.name for x in self_.atomlist], bool(res.fixed))
                     mon.records.append(rec)
                 rec["ret"] = ret
                 return ret
@@ -274,8 +290,50 @@ def trace_tie(ctx: Ctx, drv: Driver, m: OptMonitor):
                 q = f"atoms.watfinalize\t{s}\t{b01(r['fixed'])}"
             elif me == "complete":
                 q = f"atoms.watcomplete\t{s}\t{b01(r['fixed'])}"
+        elif cls == "Carboxylic":
+            info = m.carb.get(id(r["obj"]))
+            if info is None or not info["p1"] or not info["p2"] or "c_after" not in r:
+                continue
+            tail = "\t".join(hexs(info[k]) for k in ("p1", "p2", "o1", "o2"))
+
+            def st(names_, c):
+                return ";".join([encn(names_), encn([n for _i, n in c[0]]), encn(c[1]), b01(c[2])])
+
+            if me == "__init__":
+                inv = {info["o1"]: info["p1"], info["o2"]: info["p2"]}
+                order = [inv.get(o, "") for o in r["c_after"][1]]
+                q = f"carb.init\t{s}\t{tail}\t{encn(order)}"
+            else:
+                cb, ca = r["c_before"], r["c_after"]
+                ids_b, ids_a = [i for i, _n in cb[0]], [i for i, _n in ca[0]]
+                name_b = dict(cb[0])
+                state = st(r["before"], cb)
+                if me == "try_acceptor":
+                    if ids_b == ids_a and r["before"] == r["after"]:
+                        continue  # no bond found
+                    gone = [i for i in ids_b if i not in ids_a]
+                    if len(gone) != 1 or gone[0] not in ids_b[:2]:
+                        ctx.disagree("Carboxylic.try_acceptor eliminates something else than one of the first two candidates", {"before": cb[0]}, "first or second", str(gone))
+                        continue
+                    q = f"carb.acc\t{state}\t{b01(gone[0] == ids_b[0])}\t{tail}"
+                elif me == "fix":
+                    if len(ids_a) != 1 or ids_a[0] not in name_b:
+                        continue
+                    q = f"carb.fix\t{state}\t{hexs(name_b[ids_a[0]])}\t{tail}"
+                elif me in ("finalize", "complete"):
+                    best = hexs(name_b[ids_a[0]]) if ids_a and ids_a[0] in name_b and ids_b else "-"
+                    # the coupling the theorems assume: finalize picks a candidate whenever one is alive
+                    if ids_b and not ids_a and not (cb[2] and len(ids_b) != 2):
+                        ctx.count("carboxylic-finalize", "no-best-although-candidates-alive")
+                        ctx.disagree("Carboxylic.finalize found no lowest-energy candidate although candidates were alive", {"before": cb[0]}, "a candidate is kept", "all removed")
+                    else:
+                        ctx.count("carboxylic-finalize", "best-exists-or-nothing-to-do")
+                    q = f"carb.{me}\t{state}\t{best}\t{tail}"
+                else:
+                    continue
+            r["carb_expect"] = True
         else:
-            continue  # Carboxylic: not modelled
+            continue
         if q:
             reqs.append(q)
             recs.append(r)
@@ -334,6 +392,17 @@ def trace_tie(ctx: Ctx, drv: Driver, m: OptMonitor):
             if r["b"] is not None and int(wb) != r["b"] and not r.get("fixed") and "H2" not in r["before"]:
                 ctx.disagree("Water.finalize: bond count of the oxygen vs names", {"before": r["before"]}, wb, r["b"])
             a = nm
+        if r.get("carb_expect"):
+            parts = a.split(";")
+            if len(parts) != 4:
+                ctx.disagree(where, {"before": r["before"]}, a, "state")
+                continue
+            got_state = (decn(parts[0]), decn(parts[1]), decn(parts[2]), parts[3] == "1")
+            ca = r["c_after"]
+            real_state = (r["after"], [n for _i, n in ca[0]], ca[1], ca[2])
+            if got_state != real_state:
+                ctx.disagree(where, {"before": r["before"], "c_before": str(r.get("c_before"))[:300]}, str(got_state)[:400], str(real_state)[:400])
+            continue
         got = decn(a) if a != "KeyError" else "KeyError"
         if got != r["after"]:
             ctx.disagree(where, {"before": r["before"], "fixed": r.get("fixed"), "arg": r.get("arg"), "b": r.get("b"), "ret": str(r.get("ret"))}, got, r["after"])
@@ -552,11 +621,23 @@ def run(ctx: Ctx):
     rng = ctx.rng
     drv = Driver()
     ctx.extra["rule"] = (
-        "one structure with more than 9 999 atoms (1AFS, --whitespace / --keep-chain); the C04 case stream (every residue type forced at every chain position, packed waters, missing side-chain atoms, disulfide pairs, option modes incl. PROPKA states, --assign-only / --clean on hydrogenated input) and the C01 stream "
+        "one structure with more than 9 999 atoms (1AFS, --whitespace / --keep-chain); pre-named ASH/GLH residues with waters nearby (Carboxylic objects); the C04 case stream (every residue type forced at every chain position, packed waters, missing side-chain atoms, disulfide pairs, option modes incl. PROPKA states, --assign-only / --clean on hydrogenated input) and the C01 stream "
         "(pre-named protonation states, two chains, neutral termini), plus free waters, an unknown extra atom, --drop-water; every logged method call of the optimisation objects is an evaluation; a case is (kind, mode, target, position)"
     )
     seen_sig = set()
     big_case(ctx, seen_sig)
+    # protonated carboxyl groups (pre-named ASH / GLH) with waters nearby: the Carboxylic objects
+    for ci in range(ctx.scale(10, 300)):
+        must = rng.choice(["ASP", "GLU"])
+        _f, res = G.window(rng, rng.choice([3, 4, 6]), must_have=must)
+        G.set_chain(res, "A", 1)
+        for r in res:
+            if r[0].resn in ("ASP", "GLU") and rng.random() < 0.8:
+                for a in r:
+                    a.resn = {"ASP": "ASH", "GLU": "GLH"}[a.resn]
+        c = G.centroid(res)
+        waters = [G.water(rng, "A", 900 + i, c, 6.0) for i in range(rng.randint(0, 4))]
+        check_case(ctx, drv, G.to_pdb([res], waters), ["--ff=" + rng.choice(["AMBER", "PARSE", "CHARMM", "SWANSON"])], {"kind": "protonated-carboxyl", "mode": "default", "target": must, "pos": "?"}, seen_sig)
     n = ctx.scale(70, 2500)
     for ci in range(n):
         force = G.AA3[ci % len(G.AA3)] if ci % 2 == 0 else None
